@@ -63,6 +63,16 @@ static json avJson(const AnalyserVariablePtr &v, const std::map<AnalyserEquation
 static json runJob(const json &job)
 {
     json out = {{"id", job.value("id", json())}};
+    if (job.value("nomodel", false)) {
+        auto g = Generator::create();
+        if (job.value("nullmodel", false)) g->setModel(nullptr);
+        out["c_h"] = g->interfaceCode();
+        out["c_c"] = g->implementationCode();
+        g->setProfile(GeneratorProfile::create(GeneratorProfile::Profile::PYTHON));
+        out["py_h"] = g->interfaceCode();
+        out["py"] = g->implementationCode();
+        return out;
+    }
     json c15 = json::array();
     auto chk = [&](const LoggerPtr &l, const char *svc) { if (auto x = loggerIncoherence(l)) c15.push_back({{"service", svc}, {"what", *x}}); };
     auto parser = Parser::create(job.value("mode", std::string("strict")) != "permissive");
